@@ -241,6 +241,7 @@ func TestC10(t *testing.T) {
 		rng := c.Rand
 		tr := net.NewTree(g)
 		o := chainkit.DefaultGen(rng.Range(12, 40))
+		o.Calls = true
 		if _, err := tr.Grow(rng, o); err != nil {
 			c.Violation("harness:grow", "tree generator failed", err.Error())
 			return
@@ -268,7 +269,7 @@ func TestC10(t *testing.T) {
 			}
 			defer B.Destroy()
 			if err := B.Feed(best.Path()[1:]...); err != nil {
-				c.Violation("fresh-node-rejects-main-chain", "a fresh node rejects the main chain another node accepted", map[string]interface{}{"error": err.Error(), "shape": tr.Shape()})
+				c.Violation("fresh-node-rejects-main-chain:"+errClass(err), "a fresh node rejects the main chain another node accepted", map[string]interface{}{"error": err.Error(), "shape": tr.Shape()})
 				return nil, err
 			}
 			s := snap(B, ids, chs)
@@ -320,6 +321,11 @@ func TestC10(t *testing.T) {
 
 func errClass(err error) string {
 	s := err.Error()
+	if bytes.Contains([]byte(s), []byte("checking control program")) {
+		// the only programs in these trees that can fail are contract calls: the contract table used
+		// to validate the block is not the one of the block's own branch
+		return "contract-call-validated-against-another-branch's-contract-table"
+	}
 	for _, k := range []string{"voting lock", "not ready for use", "fail to find utxo", "has been spent", "revert an unspent", "invalid block", "checkpoint"} {
 		if bytes.Contains([]byte(s), []byte(k)) {
 			return k
